@@ -203,8 +203,12 @@ def _hashable_spec(s):
         return False
 
 
+PARTIAL_ORDER = None      # set by props/c15.py: does a value hold a set / mapping whose elements are only partially ordered by `<`?
+
+
 def _has_obj(spec) -> bool:
-    return '"obj"' in V.dumps(spec)
+    d = V.dumps(spec)
+    return '"obj"' in d or '"fobj"' in d
 
 
 def _call_spec(A, K):
@@ -245,7 +249,11 @@ class CallCheck:
         """`same`, and the implementation can be expected to give the two values the same key: the digest of a pickle is not a
         function of the value (False / 0, sharing, insertion histories inside the object), so objects that reach the pickle
         fallback count only when they were built from identical specs"""
-        return self.same(i, j) and (not (_has_obj(self.specs[i]) or _has_obj(self.specs[j])) or V.dumps(self.specs[i]) == V.dumps(self.specs[j]))
+        if not self.same(i, j):
+            return False
+        if PARTIAL_ORDER is not None and V.dumps(self.specs[i]) != V.dumps(self.specs[j]) and (PARTIAL_ORDER(self.vals[i]) or PARTIAL_ORDER(self.vals[j])):
+            return False      # the key of such a value depends on its iteration order (the known finding KF-C15-partial-order-sort)
+        return not (_has_obj(self.specs[i]) or _has_obj(self.specs[j])) or V.dumps(self.specs[i]) == V.dumps(self.specs[j])
 
     def same_eff(self, e1, e2):
         return e1.keys() == e2.keys() and all(V.py_same(e1[k], e2[k]) for k in e1)
